@@ -364,9 +364,27 @@ func oaepDeviations(h, mgf crypto.Hash, k int, label, msg []byte) []deviation {
 func (x *uctx) runOAEP() {
 	ki, k := x.ki, x.ki.k
 	zpub := ki.zc("plain")
-	for _, h := range []crypto.Hash{crypto.SHA1, crypto.SHA256} {
+	// hashes x labels: SHA-1 and SHA-256 with {no label, "x"}, SHA-256/384/512 with a 32-octet label
+	// (SHA-384/512: message lengths {0, max} only; keys below 776 / 1040 bits take the key-too-small path)
+	label32 := det("oaep-label32", 32)
+	type oaepCfg struct {
+		h      crypto.Hash
+		labels [][]byte
+		full   bool
+	}
+	cfgs := []oaepCfg{
+		{crypto.SHA1, [][]byte{nil, []byte("x")}, true},
+		{crypto.SHA256, [][]byte{nil, []byte("x"), label32}, true},
+		{crypto.SHA384, [][]byte{label32}, false},
+		{crypto.SHA512, [][]byte{label32}, false},
+	}
+	if ki.lite && !x.thorough {
+		cfgs = []oaepCfg{{crypto.SHA256, [][]byte{label32}, false}}
+	}
+	for _, cfg := range cfgs {
+		h := cfg.h
 		max := k - 2*h.Size() - 2
-		for _, label := range [][]byte{nil, []byte("x")} {
+		for _, label := range cfg.labels {
 			lcs := fmt.Sprintf("%s label=%q", hname(h), label)
 			if max < 0 {
 				// key too small for this hash: everything must fail cleanly
@@ -386,7 +404,11 @@ func (x *uctx) runOAEP() {
 				}
 				continue
 			}
-			for _, L := range dedupe([]int{0, 1, 16 % (max + 1), max}) {
+			lens := []int{0, 1, 16 % (max + 1), max}
+			if !cfg.full {
+				lens = []int{0, max}
+			}
+			for _, L := range dedupe(lens) {
 				msg := det(fmt.Sprintf("omsg-%s-%d", ki.name, L), L)
 				cs := fmt.Sprintf("%s len=%d", lcs, L)
 				x.st++
@@ -584,9 +606,6 @@ func (x *uctx) runCtMut(scheme string, chunk int) {
 
 // ---------------------------------------------------------------- PKCS#1 v1.5 signatures
 
-var requiredP1Hashes = map[crypto.Hash]bool{0: true, crypto.MD5: true, crypto.SHA1: true, crypto.SHA224: true,
-	crypto.SHA256: true, crypto.SHA384: true, crypto.SHA512: true, crypto.MD5SHA1: true, crypto.RIPEMD160: true}
-
 func p1SigDeviations(h crypto.Hash, d []byte, k int) []deviation {
 	t, err := digestInfo(h, d, true)
 	if err != nil || k < len(t)+11 {
@@ -692,11 +711,14 @@ func (x *uctx) runP1Sig(h crypto.Hash) {
 				case r.err != nil && oerr != nil:
 					x.h["p1sig:both-refuse"]++
 				case r.err != nil && oerr == nil:
-					if !requiredP1Hashes[h] && isUnsupportedHashErr(r.err) {
+					// "computes what standard RSA computes": a hash function the standard library
+					// signs with and the fork refuses is a difference (no waiver for hashes missing
+					// from the fork's DigestInfo table).
+					w.Detail = "zc err=" + errStr(r.err)
+					if isUnsupportedHashErr(r.err) {
 						zcRefuses = true
-						x.h["p1sig:hash-not-in-zc-table(refused)"]++
+						x.failPriv(f, "SignPKCS1v15: refuses as unsupported a hash function the oracle signs with", w)
 					} else {
-						w.Detail = "zc err=" + errStr(r.err)
 						x.failPriv(f, "SignPKCS1v15: fails where the oracle signs", w)
 					}
 				case r.err == nil && oerr != nil:
@@ -735,12 +757,9 @@ func (x *uctx) runP1Sig(h crypto.Hash) {
 			if x.isPanic(w.Op, ze, w) {
 				continue
 			}
-			if zcRefuses {
-				if ze == nil {
-					x.failPub("VerifyPKCS1v15: verifies under a hash that SignPKCS1v15 refuses as unsupported", w)
-				} else {
-					x.h["p1verify:hash-not-in-zc-table(refused)"]++
-				}
+			if zcRefuses && ze != nil {
+				w.Detail = "zc err=" + errStr(ze)
+				x.failPub("VerifyPKCS1v15: rejects the oracle's signature under a hash function SignPKCS1v15 refuses as unsupported", w)
 				continue
 			}
 			if ze != nil {
@@ -789,7 +808,7 @@ func (x *uctx) runP1Sig(h crypto.Hash) {
 					cmp(h2, d, sig, "other hash id", "verified as "+hname(h2), true)
 				}
 			}
-			for i, m := range mutate(sig, ki.N, bitGran, !bitGran || x.thorough) {
+			for i, m := range mutate(sig, ki.N, bitGran && !x.microQuick(), (!bitGran || x.thorough) && !x.microQuick()) {
 				if i&255 == 0 && x.c.TimeUp() {
 					x.c.Incomplete("signature mutations of " + x.u.id + " not finished")
 					return
@@ -815,6 +834,9 @@ func (x *uctx) runP1Sig(h crypto.Hash) {
 
 // quick tier: one hash per distinct digest length gets every single-bit flip, the others the byte menu.
 var pssBitHashes = map[crypto.Hash]bool{crypto.MD5: true, crypto.SHA1: true, crypto.SHA224: true, crypto.SHA256: true, crypto.SHA384: true, crypto.SHA512: true}
+
+// microQuick: quick tier, key with the micro profile: no bit / byte mutation menu.
+func (x *uctx) microQuick() bool { return !x.thorough && x.ki != nil && x.ki.micro }
 
 // crossOracle: on mutated inputs the verdict comes from the primary oracle; the second
 // oracle re-checks it on every non-bitflip mutation and (quick tier) every 8th bit flip.
@@ -1011,6 +1033,45 @@ func (x *uctx) runPSS(h crypto.Hash) {
 			}
 		}
 	}
+	// digest of the wrong length (one octet short / long): zcrypto must refuse exactly when the oracle refuses
+	for _, dl := range []int{hLen - 1, hLen + 1} {
+		dd := det("pss-wrongdigest-"+hname(h), dl)
+		_, oerr := x.primary.SignPSS(fx.NewRand("pss-wd"), h, dd, -1)
+		if x.second != nil {
+			if _, serr := x.second.SignPSS(fx.NewRand("pss-wd"), h, dd, -1); (oerr == nil) != (serr == nil) {
+				x.oracleSplit("SignPSS wrong-length digest", oerr, serr, dd)
+			}
+		}
+		for _, f := range formNames {
+			z := ki.zc(f)
+			type res struct {
+				op  string
+				err error
+				sig []byte
+			}
+			var rs []res
+			sg, e := z.SignPSS(fx.NewRand("pss-wd"), h, dd, -1)
+			rs = append(rs, res{"SignPSS", e, sg})
+			sg, e = z.Sign(fx.NewRand("pss-wd"), dd, &zrsa.PSSOptions{SaltLength: -1, Hash: h})
+			rs = append(rs, res{"PrivateKey.Sign(PSSOptions)", e, sg})
+			for _, r := range rs {
+				x.st++
+				x.tr++
+				x.trc++
+				w := witness{Op: r.op, Hash: hname(h), Case: fmt.Sprintf("digest of %d octets for a %d-octet hash", dl, hLen), Input: hx(dd)}
+				if x.isPanic(r.op, r.err, w) {
+					continue
+				}
+				if (r.err == nil) != (oerr == nil) {
+					w.Detail = fmt.Sprintf("zc err=%v sig=%s; oracle err=%v", r.err, hx(r.sig), oerr)
+					x.failPriv(f, "SignPSS: digest of the wrong length: zcrypto "+map[bool]string{true: "signs", false: "refuses"}[r.err == nil]+" where the oracle does not", w)
+					continue
+				}
+				x.dist++
+				x.h["psssign:wrong-length digest:"+verdict(r.err)+"-both"]++
+			}
+		}
+	}
 	// textbook signatures with explicit salt lengths, including the empty salt
 	for _, sl := range dedupe([]int{0, 1, hLen, maxSalt}) {
 		if sl < 0 || sl > maxSalt {
@@ -1041,7 +1102,7 @@ func (x *uctx) runPSS(h crypto.Hash) {
 		if x.thorough && m.actual > 0 {
 			vms = append(vms, m.actual)
 		}
-		for i, mu := range mutate(m.sig, ki.N, bitGran, !bitGran || x.thorough) {
+		for i, mu := range mutate(m.sig, ki.N, bitGran && !x.microQuick(), (!bitGran || x.thorough) && !x.microQuick()) {
 			if i&255 == 0 && x.c.TimeUp() {
 				x.c.Incomplete("signature mutations of " + x.u.id + " not finished")
 				return
@@ -1101,15 +1162,30 @@ func (x *uctx) runPSS(h crypto.Hash) {
 		}
 	}
 	if emLen < ki.k { // modulus of 8k+1 bits: a non-zero octet in front of EM
-		em := pssEM(h, clone(db), clone(H), emBits)
-		v := os2ip(append([]byte{1}, em...))
-		if v.Cmp(ki.N) < 0 {
+		// 01||EM must stay below N (= 01 xx ...): among 256 fixed salts take the first whose EM is small enough
+		done := false
+		for try := 0; try < 256 && !done; try++ {
+			salt2 := det(fmt.Sprintf("pss-dev-salt-%d", try), sl)
+			H2 := hsum(h, make([]byte, 8), d, salt2)
+			db2 := append(make([]byte, emLen-sl-hLen-2), 1)
+			db2 = append(db2, salt2...)
+			em := pssEM(h, db2, H2, emBits)
+			if x.ref.VerifyPSSEM(h, d, em) != nil {
+				x.c.Broken("harness-made PSS encoding is not valid")
+			}
+			v := os2ip(append([]byte{1}, em...))
+			if v.Cmp(ki.N) >= 0 {
+				continue
+			}
+			done = true
 			forged := i2osp(x.ref.privOp(v), ki.k)
 			for _, vm := range dedupe([]int{0, -1, sl}) {
 				cmpV(d, forged, vm, "EM deviation", "EM deviation: octet 01 in front of EM (modulus of 8k+1 bits)", false, "", true)
 			}
-		} else {
-			x.h["pss:01||EM >= N (skipped)"]++
+			x.h["pss:01||EM forgery evaluated"]++
+		}
+		if !done {
+			x.c.Incomplete("PSS 01||EM forgery: no EM below N among 256 salts in " + x.u.id)
 		}
 	}
 }
